@@ -133,7 +133,11 @@ def real_db(case):
     b = BpSeq.from_dotbracket(db)
     out["entries"] = "".join(e.sequence for e in b.entries) + " " + g1.pstr([e.pair for e in b.entries])
     out["pairs"] = [e.pair for e in b.entries]
-    out["opt"] = call_timed(lambda: b.dot_bracket.structure)
+    # the optimal notation only where the MILP is small (groups of crossing stems of at most 9, at most 16 conflicted
+    # stems in all): on long random multi-type strings CBC needs many seconds per instance
+    sizes = component_sizes(out["pairs"])
+    small = sizes is not None and max(sizes or [0]) <= 9 and sum(x for x in sizes if x > 1) <= 16
+    out["opt"] = call_timed(lambda: b.dot_bracket.structure) if small else ("skip", "large crossing groups")
     out["fcfs"] = call(lambda: b.fcfs.structure)
     return out
 
@@ -170,7 +174,7 @@ def run(ctx):
     cases = []
     for tag, (seq, pairs) in inputs:
         sizes = component_sizes(pairs)
-        want_opt = sizes is not None and max(sizes or [0]) <= ctx.pick(9, 10)
+        want_opt = sizes is not None and max(sizes or [0]) <= ctx.pick(9, 10) and sum(x for x in sizes if x > 1) <= ctx.pick(30, 18)
         nst = len(sizes) if sizes is not None else len(stems_of(pairs))
         # random level vector (any levels 0..31: the writer must follow them or raise IndexError)
         r = ctx.rng.random()
